@@ -3,6 +3,7 @@
 From Coq Require Import List Arith Bool PeanoNat Lia.
 Import ListNotations.
 Require Import TL.Model.Core TL.Model.CoreValid.
+Require TL.Proofs.CoreHash.
 
 (* ------------------------------------------------------------------ induction on values *)
 Section PvInd.
@@ -190,11 +191,11 @@ Lemma unm_refleaf f s x : unm rt E (S f) (TRefLeaf s) x = leaf_u rt s x. Proof. 
 Lemma unm_none f x : unm rt E (S f) TNone x = none_u rt x. Proof. reflexivity. Qed.
 Lemma unm_seq f k a x : unm rt E (S f) (TSeq k a) x =
   bind (load rt x) (fun d => bind (itervalues rt d) (fun vs =>
-  bind (mapM (unm rt E f a) vs) (fun rs => construct_seq rt k rs))).
+  bind (mapM (elem_conv rt k (unm rt E f a)) vs) (fun rs => construct_seq rt k rs))).
 Proof. reflexivity. Qed.
 Lemma unm_map f k kt vt x : unm rt E (S f) (TMap k kt vt) x =
   bind (load rt x) (fun d => bind (iteritems rt E d) (fun kvs =>
-  bind (mapM (map_step (unm rt E f) kt vt) kvs) (fun rs => construct_map rt k rs))).
+  bind (mapM (hashing rt fst (map_step (unm rt E f) kt vt)) kvs) (fun rs => construct_map rt k rs))).
 Proof. reflexivity. Qed.
 Lemma unm_tuple f ts x : unm rt E (S f) (TTuple ts) x =
   bind (load rt x) (fun d => bind (itervalues rt d) (fun vs =>
@@ -537,7 +538,7 @@ Proof.
     destruct (ex_merge (fun f x => unm rt E f T x = Ok x) l) as [m Hm].
     { intros x Hx. rewrite forallb_forall in Hl. apply (IH T x Ho (Hl x Hx)). }
     exists (S m). intros [|f] Hf; [lia|]. rewrite unm_seq. cbn [load is_scalar bind itervalues].
-    rewrite mapM_id; [cbn [bind]; now apply construct_seq_id|].
+    apply (proj2 (TL.Proofs.CoreHash.seq_step_ok_iff _ _ _ _ _)). rewrite mapM_id; [cbn [bind]; now apply construct_seq_id|].
     apply Forall_forall. intros x Hx. apply Hm; [lia | assumption].
   - (* TMap *)
     destruct v as [| | |k' kvs| |]; try discriminate.
@@ -548,7 +549,7 @@ Proof.
     { intros kv Hx. rewrite forallb_forall in Hl. pose proof (Hl kv Hx) as H.
       apply andb_true_iff in H as [H1 H2]. apply passes_and; now apply IH. }
     exists (S m). intros [|f] Hf; [lia|]. rewrite unm_map. cbn [load is_scalar bind iteritems].
-    rewrite mapM_id; [cbn [bind]; now apply construct_map_id|].
+    apply (proj2 (TL.Proofs.CoreHash.map_step_ok_iff _ _ _ _ _)). rewrite mapM_id; [cbn [bind]; now apply construct_map_id|].
     apply Forall_forall. intros [a b] Hx. destruct (Hm f ltac:(lia) _ Hx) as [H1 H2]. cbn in H1, H2.
     unfold map_step. cbn [fst snd]. now rewrite H1, H2.
   - (* TTuple *)
@@ -975,6 +976,7 @@ Proof.
   - (* TNone *) rewrite unm_none in H. apply none_res in H. subst. exists 1. cbn. apply pv_eqb_refl.
   - (* TSeq *)
     rewrite unm_seq in H. apply bind_ok in H as [d [_ H]]. apply bind_ok in H as [vs [_ H]].
+    apply (proj1 (TL.Proofs.CoreHash.seq_step_ok_iff _ _ _ _ _)) in H.
     apply bind_ok in H as [rs [Hm Hc]]. apply mapM_ok in Hm.
     destruct (ex_merge (fun k r => sg k T r = true) rs) as [m Hmm].
     { intros r Hr. destruct (Forall2_in_l _ _ _ _ Hm Hr) as [x' [_ Hu]]. destruct (IH _ _ _ Ho Hu) as [k0 Hk0].
@@ -989,6 +991,7 @@ Proof.
   - (* TMap *)
     rewrite unm_map in H. apply andb_true_iff in Ho as [Ho1 Ho2].
     apply bind_ok in H as [d [_ H]]. apply bind_ok in H as [kvs [_ H]].
+    apply (proj1 (TL.Proofs.CoreHash.map_step_ok_iff _ _ _ _ _)) in H.
     apply bind_ok in H as [rs [Hm Hc]]. apply mapM_ok in Hm.
     destruct (ex_merge (fun k r => sg k T1 (fst r) = true /\ sg k T2 (snd r) = true) rs) as [m Hmm].
     { intros r Hr. destruct (Forall2_in_l _ _ _ _ Hm Hr) as [kv [_ Hu]]. unfold map_step in Hu.
